@@ -141,6 +141,32 @@ def run_case(case, col=None):
                 F('stream-clocked', 'raises', '%s after %d of %d objects | %s' % (err, len(got), len(ends), where), err)
             elif got != ends:
                 F('stream-clocked', 'positions', 'positions after each object %s, ends of the encodings %s | %s' % (got, ends, where))
+    # a fresh StreamingDecoder per encoding on ONE non-seekable source (each decoder is dropped after its object): what follows an
+    # encoding is preserved for whoever reads the source next
+    if usable and len(usable) == len(encs) and len(encs) >= 2 and not _f09_region(T, encs):
+        import gc
+        from pv.core import streams
+        raw = streams.WholePipe(b''.join(e for e, _c in usable))
+        got, err = 0, None
+        try:
+            for _e, _c in usable:
+                dec = lib.DEC['BER'].StreamingDecoder(raw, asn1Spec=sch)
+                obj = next(iter(dec))
+                if isinstance(obj, lib.error.SubstrateUnderrunError):
+                    err = 'underrun on a blocking source'
+                    break
+                got += 1
+                del dec, obj
+                gc.collect()
+        except StopIteration:
+            err = 'no object'
+        except lib.error.PyAsn1Error as ex:
+            err = harness.exc_sig(ex)
+        except Exception as ex:
+            err = 'leak ' + harness.exc_sig(ex)
+        if err is not None:
+            F('decoder-per-encoding', 'raises', '%s after %d of %d encodings read by one decoder each | stream=%s' % (
+                err, got, len(usable), b''.join(e for e, _c in usable).hex()[:160]), err)
     # the same encodings, repeated until they exceed twice the read-ahead buffer, from a non-seekable stream
     if case.get('pipe') and usable and len(usable) == len(encs) and not _f09_region(T, encs):
         # (definite-length constructed elements read through the caching wrapper hit known finding F09 - the
